@@ -600,12 +600,7 @@ func parentMain(spec Spec, fams []Family) {
 				spec.ID, f.Name, fr.Done, f.N, fr.NonTriv, len(fr.ViolCount), time.Since(start).Seconds())
 		}
 	}
-	if engineErr != "" {
-		fmt.Fprintf(os.Stderr, "ENGINE-ERROR %s: %s\n", spec.ID, engineErr)
-		os.Exit(2)
-	}
-
-	// classify violations
+	// classify violations (also when a shard failed: what was found is still shown)
 	known := loadKnown(spec.ID)
 	byKey := map[string][]Violation{}
 	for _, v := range total.Viol {
@@ -655,6 +650,10 @@ func parentMain(spec Spec, fams []Family) {
 		exit = 1
 	}
 
+	if engineErr != "" {
+		fmt.Fprintf(os.Stderr, "ENGINE-ERROR %s: %s\n", spec.ID, engineErr)
+		os.Exit(2)
+	}
 	writeEvidence(spec, total, famStats, nviol, knownHit, time.Since(start))
 	if exit == 0 {
 		fmt.Printf("OK property=%s tier=%s evaluations=%d nontrivial=%d states=%d transitions=%d outcome_classes=%d exhaustive=%v wall=%.1fs\n",
